@@ -152,7 +152,8 @@ let e2e_cfg t =
     c_min = (match get t "mins" "-" with "-" -> N0 | x -> picos_of_decimal x);
     c_max = (if get t "mx" "-" = "0" then N0 else match get t "maxs" "-" with "-" -> u128_max | x -> picos_of_decimal x);
     c_skip = (get t "skipx" "0" = "1");
-    c_freq = (if get t "vcost" "-" = "-" then n_of_small 1 else n_of_string "1000000000000"); c_prec = n_of_small 1;
+    c_freq = (if get t "vcost" "-" = "-" then n_of_small 1 else n_of_string "1000000000000");
+    c_prec = (match get t "prec" "-" with "-" -> n_of_small 1 | x -> n_of_string x);
     c_oh = { oh_loop = N0; oh_alloc = N0; oh_dealloc = N0; oh_realloc = N0 }; c_input_counts = qconst false }
 
 (* the history of a run on the virtual clock: every call costs [vcost] ticks, nothing else does *)
@@ -261,8 +262,44 @@ let os_check line =
       | _ -> Some ("t=" ^ get r "t" "?")) rows in
   verdict (bad = [] && rows <> []) ("C04:more-rounds-than-the-ceiling-allows-at-" ^ String.concat "," bad)
 
+(* C19 end to end: tuned size on the virtual clock; the history comes from the dumped event log *)
+let c19cli_model line =
+  let (case, histpart) = split_bar line in
+  let t = kv case in
+  let cfg = e2e_cfg t in
+  let ts = get t "threads" "1" in
+  match parse_case "" histpart with
+  | Panic p -> "panic " ^ string_of_panic p
+  | Ok p ->
+    match bench_loop cfg p.init p.hist with
+    | Panic e -> "t=" ^ ts ^ " panic " ^ string_of_panic e
+    | Ok out ->
+      match seen_of_outcome (nat_of_int (int_of_string ts)) out with
+      | Panic e -> "t=" ^ ts ^ " panic " ^ string_of_panic e
+      | Ok s ->
+        if not (out_done out) then "t=" ^ ts ^ " starved after " ^ string_of_int (List.length s.o_sizes) ^ " rounds"
+        else Printf.sprintf "t=%s samples=%s iters=%s calls=%s sizes=%s" ts (string_of_n s.o_stat_samples)
+            (string_of_n s.o_stat_iters) (list_s string_of_n s.o_calls) (list_s string_of_n s.o_sizes)
+
+let c19cli_check line =
+  let (case, impl) = split_sb line in
+  let (obs, histpart) = split_bar impl in
+  let t = kv case in
+  let cfg = e2e_cfg t in
+  let r = kv obs in
+  match parse_case "" histpart with
+  | Panic p -> verdict false ("history:" ^ string_of_panic p)
+  | Ok p ->
+    let num k = (try Some (n_of_string (get r k "-")) with _ -> None) in
+    match num "samples", num "iters", (try Some (list_n (get r "sizes" "")) with _ -> None) with
+    | Some sa, Some it, Some sizes when get r "badlog" "0" = "0" && get r "t" "?" = get t "threads" "1" ->
+      verdict (c19_e2e_sb cfg p.init p.hist sizes sa it) "C19:tuning-sequence/max_time-covers-tuning/reported-figures"
+    | _ -> verdict false ("outcome:" ^ (if String.length obs > 80 then String.sub obs 0 80 else obs))
+
 let dispatch mode line =
   match mode with
+  | "c19cli" -> c19cli_model line
+  | "c19cli.sb" -> c19cli_check line
   | "c04cli" -> e2e_model line
   | "c04cli.sb" -> cli_check line
   | "c04os" -> os_model line
